@@ -42,7 +42,16 @@ RULE = (
     "joint).  Oracle: every returned sptensor/sptenmat well-formed, no explicit zero after combining/filtering "
     "operations, and identical outcome (class, shape, denoted values, or exception) for every order; exact for data "
     "movement and integer data, 64*cells*eps*scale for float accumulations.  Non-trivial: some operand has >=2 "
-    "nonzeros (so a non-identity order was run) and the operation returned a value."
+    "nonzeros (so a non-identity order was run) and the operation returned a value.  "
+    "Round 3: (dynamic range) float data also scaled by 1e-12, 1e-160, 1e-200, 1e+200 (second operand / numeric "
+    "parameters scaled the same way, inversely or not): products and quotients of two stored values underflow to "
+    "exactly zero (all / some of them) or overflow; integer data also held in int8 / uint8 with values +-4..128 whose "
+    "products and sums wrap around, also to exactly zero, the dense operand then in the same dtype.  (sizes) cells "
+    "large-linear (1e4..5e4 stored nonzeros on ~6e4 cells, 58 operations that are linear in nnz) and large-pairs "
+    "(800..2400 stored nonzeros on ~1800 cells: every operation that matches two subscript lists or the list of all "
+    "subscripts), a few per run, three stored orders each; cell huge: modes longer than 2**40 / 2**53 / 2**60, more "
+    "than 2**63 cells, sparse results compared as sets of entries.  (several live objects) for the first stored order "
+    "the operands and the returned object are edited in place in turn; every other one must stay what it was."
 )
 ASSUMPTIONS = [
     "operands are well-formed sptensors (distinct in-range integer subscripts, nonzero values) built with the plain "
@@ -68,6 +77,12 @@ ASSUMPTIONS = [
     "an all-zero or non-float parameter counts as 1)",
     "operands holding explicitly stored zeros are not generated here (C03/*/state and C01 judge what they denote); "
     "explicit zeros in *results* of combining / filtering operations are what this property forbids",
+    "all inputs are finite; with operands of magnitude 1e+200 sums of products overflow and whether a partial sum "
+    "overflows depends on the order of summation, so entries that are infinite / NaN for either order are not compared "
+    "for accumulating operations; where float sums are compared with a tolerance a result handed back sparse for one "
+    "order and dense for another (density switch on a value that is zero within the tolerance) is the same outcome",
+    "large cases: parameters are drawn for a small proxy operand that is part of the large one; the dense operand of "
+    "large cases comes from a seed; huge cases: integer values only (exact comparison)",
 ]
 
 EPS = np.finfo(float).eps
@@ -206,18 +221,77 @@ def _malformed(ctx, name, probs, r):
         _once(ctx, False, f"{name}:malformed:{kind}", info)
 
 
+MAX_EXPAND = 10**7
+FAST_ABOVE = 2000  # stored entries: beyond this the vectorised twins of ref.sptensor_problems / ref.den are used
+
+
+def _problems_fast(S):
+    """ref.sptensor_problems(S, allow_explicit_zero=True) for many stored entries (vectorised, same messages)"""
+    out = []
+    shape = tuple(S.shape)
+    if not all(isinstance(n, (int, np.integer)) for n in shape):
+        out.append("shape-not-int")
+    subs, vals = S.subs, S.vals
+    if not isinstance(subs, np.ndarray) or not isinstance(vals, np.ndarray):
+        return out + ["subs/vals-not-ndarray"]
+    n = 0 if subs.size == 0 else subs.shape[0]
+    nv = 0 if vals.size == 0 else vals.shape[0]
+    if subs.size and subs.ndim != 2:
+        return out + [f"subs-ndim-{subs.ndim}"]
+    if vals.size and (vals.ndim != 2 or vals.shape[1] != 1):
+        out.append(f"vals-shape-{vals.shape}")
+    if n != nv or vals.size != nv:
+        out.append(f"one-value-per-subscript:{n}-subs-{vals.size}-vals")
+    if subs.size:
+        if not np.issubdtype(subs.dtype, np.integer):
+            out.append(f"subs-dtype-{subs.dtype}")
+        if subs.shape[1] != len(shape):
+            out.append(f"subs-width-{subs.shape[1]}-vs-order-{len(shape)}")
+        else:
+            if (subs < 0).any() or (subs >= np.array(shape)[None, :]).any():
+                out.append("subs-out-of-shape")
+            elif ref.prod(shape) < 2**62:  # in range: one integer key per row
+                if np.unique(np.ravel_multi_index(tuple(subs.T), tuple(int(v) for v in shape))).shape[0] != n:
+                    out.append("duplicate-subscripts")
+            elif np.unique(subs, axis=0).shape[0] != n:
+                out.append("duplicate-subscripts")
+    try:
+        if S.nnz != n:
+            out.append(f"nnz-{S.nnz}-vs-stored-{n}")
+    except Exception as e:  # noqa: BLE001
+        out.append(f"nnz-raises-{type(e).__name__}")
+    return out
+
+
+def _den_fast(S):
+    A = np.zeros(tuple(int(n) for n in S.shape))
+    if S.subs.size:
+        np.add.at(A, tuple(np.asarray(S.subs).T), np.asarray(S.vals, dtype=float).reshape(-1))
+    return A
+
+
+def _entry_set(subs, vals, width):
+    if np.asarray(subs).size == 0:
+        return frozenset()
+    return frozenset((tuple(int(i) for i in r), float(v)) for r, v in zip(np.asarray(subs).reshape(-1, width),
+                                                                         np.asarray(vals).reshape(-1)) if v != 0)
+
+
 def summarize(ctx, O, r):
     """comparable form of a result: nested tuples of ('kind', shape, float array)"""
     name = O.name
     if isinstance(r, ttb.sptensor):
-        probs = ref.sptensor_problems(r, allow_explicit_zero=True)
+        many = isinstance(r.subs, np.ndarray) and r.subs.ndim == 2 and r.subs.shape[0] > FAST_ABOVE
+        probs = _problems_fast(r) if many else ref.sptensor_problems(r, allow_explicit_zero=True)
         if probs:
             _malformed(ctx, name, probs, r)
             raise Bad()
         if O.combine:
             _once(ctx, not (r.vals.size and (np.asarray(r.vals) == 0).any()), f"{name}:no-explicit-zero",
-                  f"subs={r.subs.tolist()} vals={np.asarray(r.vals).ravel().tolist()}")
-        return ("sptensor", tuple(int(s) for s in r.shape), ref.den(r))
+                  f"subs={r.subs.tolist()[:8]} vals={np.asarray(r.vals).ravel().tolist()[:8]}")
+        if ref.prod(r.shape) > MAX_EXPAND:  # cannot be expanded: the set of (subscript, value) entries that are not zero
+            return ("sptensor", tuple(int(s) for s in r.shape), _entry_set(r.subs, r.vals, len(r.shape)))
+        return ("sptensor", tuple(int(s) for s in r.shape), _den_fast(r) if many else ref.den(r))
     if isinstance(r, ttb.sptenmat):
         probs = sptenmat_problems(r, allow_explicit_zero=True)
         if probs:
@@ -225,6 +299,9 @@ def summarize(ctx, O, r):
             raise Bad()
         if O.combine:
             _once(ctx, not (r.vals.size and (np.asarray(r.vals) == 0).any()), f"{name}:no-explicit-zero")
+        if ref.prod(r.tshape) > MAX_EXPAND:
+            return ("sptenmat", tuple(int(s) for s in r.tshape), tuple(int(d) for d in r.rdims),
+                    tuple(int(d) for d in r.cdims), _entry_set(r.subs, r.vals, 2))
         return ("sptenmat", tuple(int(s) for s in r.tshape), tuple(int(d) for d in r.rdims),
                 tuple(int(d) for d in r.cdims), ref.den(r))
     if isinstance(r, ttb.tensor):
@@ -234,14 +311,14 @@ def summarize(ctx, O, r):
         return ("tensor", tuple(int(s) for s in r.shape), ref.den(r))
     if isinstance(r, ttb.tenmat):
         return ("tenmat", tuple(int(s) for s in r.tshape), tuple(int(d) for d in r.rindices),
-                tuple(int(d) for d in r.cindices), np.asarray(r.data, dtype=float))
+                tuple(int(d) for d in r.cindices), np.array(r.data, dtype=float))
     if isinstance(r, ttb.ktensor):
         return ("ktensor", tuple(r.shape), ref.den(r))
     if isinstance(r, np.ndarray):
         if r.dtype == object:
             _once(ctx, False, f"{name}:object-array")
             raise Bad()
-        return ("ndarray", r.shape, np.asarray(r, dtype=float))
+        return ("ndarray", r.shape, np.array(r, dtype=float))  # a copy: the result itself is edited later
     if isinstance(r, (bool, np.bool_)):
         return ("bool", (), np.array(float(r)))
     if isinstance(r, (int, float, np.integer, np.floating)):
@@ -260,16 +337,33 @@ def summarize(ctx, O, r):
     raise Bad()
 
 
-def same_outcome(x, y, tol):
+def _dense_like(o):
+    """('sptensor' | 'tensor', shape, array) -> ('array-of', shape, array): where float sums are compared with a
+    tolerance, whether a result that is zero within it is handed back sparse or dense (a density switch on the
+    number of computed nonzeros) is not a difference"""
+    if isinstance(o, tuple) and len(o) == 3 and o[0] in ("sptensor", "tensor") and isinstance(o[2], np.ndarray):
+        return ("array-of",) + o[1:]
+    return o
+
+
+def same_outcome(x, y, tol, overflow=False):
+    """overflow: the operands hold values of magnitude 1e+200, so sums of products of two of them overflow, and
+    whether a partial sum overflows depends on the order of summation ((h + h) - h = inf, h + (h - h) = h): an entry
+    that is infinite or NaN for either order is not compared (all inputs are finite)"""
+    if tol > 0.0:
+        x, y = _dense_like(x), _dense_like(y)
     if isinstance(x, np.ndarray) or isinstance(y, np.ndarray):
         if not (isinstance(x, np.ndarray) and isinstance(y, np.ndarray)) or x.shape != y.shape:
             return False
-        if tol == 0.0:
+        if tol == 0.0 and not overflow:
             return ref.same_exact(x, y)
         with np.errstate(all="ignore"):
-            return bool(np.all((np.abs(x - y) <= tol) | (x == y) | (np.isnan(x) & np.isnan(y))))
+            ok = (np.abs(x - y) <= tol) | (x == y) | (np.isnan(x) & np.isnan(y))
+            if overflow:
+                ok = ok | ~np.isfinite(x) | ~np.isfinite(y)
+            return bool(np.all(ok))
     if isinstance(x, tuple) and isinstance(y, tuple):
-        return len(x) == len(y) and all(same_outcome(a, b, tol) for a, b in zip(x, y))
+        return len(x) == len(y) and all(same_outcome(a, b, tol, overflow) for a, b in zip(x, y))
     return x == y
 
 
@@ -314,7 +408,8 @@ def tolerance(O, case):
         else:
             scale *= mag(v)
     cells = ref.prod(case["shape"]) * 8
-    return 64.0 * cells * EPS * scale
+    tol = 64.0 * cells * EPS * scale
+    return tol if np.isfinite(tol) else float("inf")  # products of magnitudes beyond 1e308: everything overflows
 
 
 # --------------------------------------------------------------------------
@@ -754,11 +849,25 @@ def _p_dense_other(draw, tier, shape, vkind, case):
                 gen.values(vkind, nonzero=True)))))
         else:
             flat.append(draw(gen.values(vkind)) if draw(st.booleans()) else 0.0)
-    return dict(T=flat)
+    out = dict(T=flat)
+    if case["a"].get("dtype") in NARROW:
+        out["Tdtype"] = case["a"]["dtype"]
+        if out["Tdtype"] == "uint8":
+            out["T"] = [abs(v) for v in flat]
+    return out
 
 
 def _T(p, c):
-    return ttb.tensor(gen.arr_F(c["shape"], p["T"]).copy(order="F"), tuple(c["shape"]))
+    if "Tseed" in p:  # large cases: the dense operand is a function of a seed (zero at about a third of the cells)
+        rs = np.random.RandomState(int(p["Tseed"]))
+        T = np.asfortranarray(np.round(rs.uniform(-6, 6, size=tuple(c["shape"]))) if c["vkind"] == "int" else rs.uniform(
+            -3, 3, size=tuple(c["shape"])))
+        T[rs.uniform(size=T.shape) < 0.3] = 0.0
+        return ttb.tensor(T, tuple(c["shape"]))
+    T = gen.arr_F(c["shape"], p["T"]).copy(order="F")
+    if p.get("Tdtype"):  # narrow integer dtype of the sparse operand: the products then wrap around like the values
+        T = T.astype(p["Tdtype"])
+    return ttb.tensor(T, tuple(c["shape"]))
 
 
 SCALARS = [-2.0, -1.0, 0.0, 1.0, 2.0, 0.5]
@@ -1261,6 +1370,38 @@ op("holder", "sumtensor-first.full", lambda X, p, c: ttb.sumtensor([X["a"], _T(p
 # --------------------------------------------------------------------------
 
 
+VSCALES = [1.0, 1.0, 1.0, 1e-6, 1e6, 1e-12, 1e-160, 1e-200, 1e200]
+EXTREME = (1e-160, 1e-200, 1e200)
+NARROW = ("int8", "uint8")
+_PARAM_DATA_KEYS = ("T", "vecs", "mats", "factor", "weights", "factors", "core", "U")
+
+
+def _narrow_value(v, dt):
+    """-6..6 -> +-(4, 8, 16, 32, 64, 64 | -128): values of a narrow integer dtype whose products wrap around"""
+    m = 2 ** min(int(abs(v)) + 1, 7)
+    if dt == "uint8":
+        return float(m)
+    if v < 0:
+        return float(-m)
+    return float(min(m, 64))
+
+
+def _scale_nested(x, f):
+    if isinstance(x, list):
+        return [_scale_nested(v, f) for v in x]
+    if isinstance(x, float):
+        # values copied from an (already scaled) operand stay as they are: every input is a finite real number
+        return x * f if x == 0.0 or 1e-100 < abs(x) < 1e100 else x
+    return x
+
+
+def _scale_params(p, f):
+    """scale the numeric data of an operation's parameters (vectors, matrices, the dense / Kruskal / Tucker operand)"""
+    for k in _PARAM_DATA_KEYS:
+        if isinstance(p.get(k), list):
+            p[k] = _scale_nested(p[k], f)
+
+
 @st.composite
 def family_case(draw, tier, fam):
     name = draw(st.sampled_from(FAMILIES[fam]))
@@ -1272,20 +1413,41 @@ def family_case(draw, tier, fam):
         case["a"], case["b"] = draw(entries_pair(shape, vkind))
     else:
         case["a"] = draw((O.ents or entries)(shape, vkind))
-    # data magnitudes (order independence is scale-free; the accumulation tolerance is relative to the magnitudes)
-    vscale = draw(st.sampled_from([1.0, 1.0, 1e-6, 1e6])) if vkind == "float" else 1.0
+    # data magnitudes (order independence is scale-free; the accumulation tolerance is relative to the magnitudes).
+    # Extreme dynamic range: 1e-200 / 1e-160 / 1e+200 - products of two such values underflow to exactly zero (all of
+    # them / some of them) or overflow; the second operand and the numeric parameters are then scaled the same way, the
+    # inverse way (quotients underflow) or not at all
+    vscale = draw(st.sampled_from(VSCALES)) if vkind == "float" else 1.0
     case["vscale"] = vscale
+    extreme = vscale in EXTREME
+    bscale = pscale = vscale
+    if extreme:
+        bscale = draw(st.sampled_from([vscale, vscale, 1.0 / vscale]))
+        pscale = draw(st.sampled_from([vscale, vscale, 1.0 / vscale, 1.0]))
+        case["bscale"], case["pscale"] = bscale, pscale
     if vscale != 1.0:
         for k in ("a", "b"):
             if k in case:
-                case[k]["vals"] = [v * vscale for v in case[k]["vals"]]
+                f = vscale if k == "a" else bscale
+                case[k]["vals"] = [v * f for v in case[k]["vals"]]
+    # narrow integer dtypes whose products (and sums) wrap around, also to exactly zero: 16 * 16 in int8 / uint8
+    if vkind == "int" and O.build is None and draw(st.integers(0, 5)) == 0:
+        dt = draw(st.sampled_from(["int8", "int8", "uint8"]))
+        for k in ("a", "b"):
+            if k in case:
+                case[k]["vals"] = [_narrow_value(v, dt) for v in case[k]["vals"]]
+                case[k]["dtype"] = dt
     case["p"] = draw(O.params(tier, shape, vkind, case)) if O.params else {}
+    if extreme and pscale != 1.0:
+        _scale_params(case["p"], pscale)
     if O.keys == ("a", "b") and O.bshape is not None:
         case["b"] = draw(entries(O.bshape(case), vkind))
+        if extreme:
+            case["b"]["vals"] = [v * bscale for v in case["b"]["vals"]]
     # value dtypes: integer-valued operands are held in int64 one time in three, independently of each other
     if vkind == "int" and O.build is None:
         for k in O.keys:
-            if draw(st.integers(0, 2)) == 0:
+            if "dtype" not in case[k] and draw(st.integers(0, 2)) == 0:
                 case[k]["dtype"] = "int64"
     if O.build is None:
         for k in O.keys:
@@ -1306,6 +1468,41 @@ def _shape_of_key(O, case, k):
     return case["shape"]
 
 
+def _empty_region_inside(case):
+    """S[R1,..,Rn] = c where some range holds no index and no index of any range lies outside the shape"""
+    key = case["p"].get("key", [])
+    if not any(k["f"] == "empty" for k in key):
+        return False
+    for k, n in zip(key, case["shape"]):
+        v = k.get("v")
+        idx = [] if v is None else ([v] if isinstance(v, int) else (v[:2] if k["f"] in ("slice", "step", "empty") else v))
+        hi = [i - 1 if (k["f"] in ("slice", "step", "empty") and j == 1) else i for j, i in enumerate(idx)]
+        if any(i >= n for i in hi):
+            return False
+    return True
+
+
+def _alias_round(ctx, name, X, r):
+    """several live objects: the operands and the object an operation handed back are edited in place one after the
+    other through the public interface (S[subs] = v, M[r, c] = v, T[...] = B, a[...] = B); every other one must stay
+    exactly what it was (`<op>:<object>:changed-by:edit-of-<other>`).  Not for the assignments, which hand back
+    their operand."""
+    from ._live import Live, _is_scipy
+
+    if not isinstance(r, (ttb.sptensor, ttb.sptenmat, ttb.tensor, ttb.tenmat, np.ndarray)) and not _is_scipy(r):
+        return
+    if any(r is x for x in X.values()):
+        return
+    live = Live(ctx, prefix=name + ":")
+    for k, x in X.items():
+        if isinstance(x, ttb.sptensor):
+            live.keep("operand-" + k, x)
+    if not live.items:
+        return
+    live.keep("result", r)
+    live.edit_all()
+
+
 def _run(ctx, case):
     O = OPS[case["op"]]
     name = O.name
@@ -1313,8 +1510,10 @@ def _run(ctx, case):
     nmax = max(len(case[k]["subs"]) for k in O.keys)
     ctx.label("op-" + name, *gen.shape_classes(case["shape"]), "v-" + case["vkind"],
               "nnz" + (str(nmax) if nmax <= 4 else "5+"), f"vscale-{case.get('vscale', 1.0):g}",
+              *([f"pscale-{case['pscale']:g}"] if "pscale" in case else []),
               "dtypes-" + "/".join(case[k].get("dtype", "float64") for k in O.keys),
               "numpy-int-shape" if any(case[k].get("npshape") for k in O.keys) else "python-int-shape")
+    overflow = O.accum and max(case.get("vscale", 1.0), case.get("bscale", 1.0), case.get("pscale", 1.0)) >= 1e100
     base = None
     base_combo = None
     nrun = 0
@@ -1335,6 +1534,13 @@ def _run(ctx, case):
                 ok_runs += 1
             except Bad:
                 continue
+            if nrun == 1 and not case.get("was_big"):
+                _alias_round(ctx, name, X, r)
+            if name == "setitem-region" and _empty_region_inside(case):
+                # degenerate request: a region without any cell, inside the shape - the assignment is a no-op
+                want = ("sptensor", tuple(case["shape"]), dense_of(case["shape"], case["a"]))
+                _once(ctx, same_outcome(out[1], want, 0.0), "setitem-region:empty-region-is-a-no-op",
+                      f"{_brief(out[1])[:150]} vs {_brief(want)[:150]}")
         if base is None:
             base, base_combo = out, combo
             continue
@@ -1343,7 +1549,7 @@ def _run(ctx, case):
             ctx.fail("exception", f"{name}:raises-for-some-orders:{exc[1]}@{exc[2]}",
                      f"order {combo}: {_brief(out)[:150]} | order {base_combo}: {_brief(base)[:150]}")
             break
-        if out[0] == "value" and not same_outcome(out[1], base[1], tol):
+        if out[0] == "value" and not same_outcome(out[1], base[1], tol, overflow):
             _once(ctx, False, f"{name}:order-dependent",
                   f"order {combo}: {_brief(out[1])[:170]} | order {base_combo}: {_brief(base[1])[:170]}")
             break
@@ -1351,6 +1557,291 @@ def _run(ctx, case):
         ctx.label("raises-" + base[1])
     ctx.label(f"orders-run-{'1' if nrun == 1 else ('2-6' if nrun <= 6 else ('7-24' if nrun <= 24 else '25+'))}")
     ctx.nt = nmax >= 2 and ok_runs >= 2
+
+
+# --------------------------------------------------------------------------
+# round 3: large operands.  Vectorised implementations process nonzeros / rows in blocks (1e4, 16384 entries, 2**22
+# row comparisons); a few cases per run have 1e4..5e4 stored nonzeros (operations that are linear in the number of
+# nonzeros) or 900..1700 stored nonzeros on ~1800 cells (operations that match the rows of two subscript lists or of
+# the list of all subscripts).  The case is stored in compact form: the operation's parameters are drawn for a small
+# proxy operand, the operand itself (proxy entries + entries generated from a seed) and three stored orders (reversed,
+# two generated) come from `_expand_large`.
+# --------------------------------------------------------------------------
+
+LARGE_LINEAR_SHAPES = [(40, 40, 40), (30, 50, 35), (250, 300), (25, 20, 10, 12), (60000,), (40, 1, 40, 40)]
+LARGE_PAIR_SHAPES = [((12, 12, 12), (900, 1600)), ((40, 45), (1200, 1750)), ((6, 7, 6, 7), (800, 1600)),
+                     ((2500,), (1700, 2400))]
+LARGE_LINEAR_OPS = [
+    "copy", "neg", "ones", "full", "double", "nnz", "norm", "find", "squeeze", "permute", "reshape", "elemfun",
+    "to_sptenmat", "to_sptenmat.to_sptensor", "to_sptenmat.double", "to_sptenmat.full", "to_sptenmat.norm",
+    "to_sptenmat.isequal", "from_aggregator", "ttv", "ttv", "ttm", "ttm", "contract", "collapse", "collapse",
+    "scale-ndarray", "mttkrp", "mttkrp", "mul-tensor", "tensor-mul", "add-tensor", "sub-tensor", "innerprod-tensor",
+    "tensor-innerprod", "logical_and-tensor", "mul-scalar", "div-scalar", "add-scalar", "scalar-mul", "extract",
+    "getitem-subs", "getitem-linear", "getitem-region", "subdims", "ktensor-mask", "setitem-subs", "setitem-region",
+    "setitem-element", "innerprod-ktensor", "ktensor-innerprod", "innerprod-ttensor", "mul-ktensor", "ktensor-mul",
+    "ttensor-core.full", "sumtensor-part.full", "export-import", "deepcopy", "spmatrix", "spmatrix.from_array",
+]
+LARGE_PAIR_OPS = (
+    [f"{n}-sptensor" for n in list(ARITH) + list(CMP) + ["logical_and", "logical_or", "logical_xor", "innerprod",
+                                                         "isequal"]]
+    + ["mask", "logical_not", "logical_not"] + [f"{n}-scalar" for n in CMP] + [f"{n}-tensor" for n in CMP]
+    + ["logical_or-tensor", "logical_xor-tensor", "tensor-eq", "tensor-lt"])
+_DENSE_OTHER = _p_dense_other
+
+
+@st.composite
+def _proxy_entries(draw, shape, vkind):
+    """a few entries of a large operand, drawn by Hypothesis (parameters that refer to stored entries use these)"""
+    n = draw(st.integers(1, 4))
+    subs = sorted({tuple(draw(st.integers(0, s - 1)) for s in shape) for _ in range(n)})
+    return dict(subs=[list(x) for x in subs],
+                vals=draw(st.lists(gen.values(vkind, nonzero=True), min_size=len(subs), max_size=len(subs))))
+
+
+def _large_admissible(name, shape):
+    O = OPS[name]
+    if name in ("spmatrix", "spmatrix.from_array"):
+        return len(shape) == 2
+    if name == "contract":
+        return len(shape) >= 2 and len(set(shape)) < len(shape) and max(shape) <= 300
+    if name == "mttkrp" or name.startswith("ttensor-core"):
+        return len(shape) >= 2 and max(shape) <= 50  # one factor matrix per mode is drawn by Hypothesis
+    if O.params is not None and O.params is not _DENSE_OTHER:
+        return max(shape) <= 300  # vectors / matrices along a mode are drawn by Hypothesis
+    return True
+
+
+@st.composite
+def large_case(draw, tier, kind):
+    """compact large case: one operand (pair of operands) and several operations with their parameters"""
+    from ._live import run_salt
+
+    raw = draw(st.integers(0, 2**32 - 1))
+    seed = (raw ^ run_salt()) & 0xFFFFFFFF
+    rng = np.random.RandomState(seed)
+    dups = False
+    if kind == "linear":
+        shape = list(LARGE_LINEAR_SHAPES[rng.randint(len(LARGE_LINEAR_SHAPES))])
+        lo, hi = [(10001, 12000), (16385, 20000), (20001, 50000)][rng.randint(3)]
+        nnz = min(int(rng.randint(lo, hi + 1)), int(0.8 * ref.prod(shape)))
+        dups = rng.randint(5) == 0
+        pool = ["from_aggregator"] * 3 if dups else [n for n in LARGE_LINEAR_OPS if n != "from_aggregator"
+                                                     and _large_admissible(n, shape)]
+        k = 3 if dups else 6
+    else:
+        shape, (lo, hi) = LARGE_PAIR_SHAPES[rng.randint(len(LARGE_PAIR_SHAPES))]
+        shape, nnz = list(shape), int(rng.randint(lo, hi + 1))
+        pool, k = LARGE_PAIR_OPS, 3
+    names = [pool[i] for i in rng.choice(len(pool), size=min(k, len(pool)), replace=False)]
+    vkind = draw(st.sampled_from(["int", "float"]))
+    case = dict(shape=shape, vkind=vkind, vscale=1.0, big=dict(seed=seed, nnz=nnz, kind=kind, simplest=raw == 0, dups=dups))
+    case["a"] = draw(_proxy_entries(shape, vkind))
+    if any(OPS[n].keys == ("a", "b") for n in names):
+        case["b"] = draw(_proxy_entries(shape, vkind))
+    ops = []
+    for n in names:
+        O = OPS[n]
+        if O.params is _DENSE_OTHER:
+            p_ = dict(Tseed=int(rng.randint(2**31 - 1)))
+        else:
+            p_ = draw(O.params(tier, shape, vkind, case)) if O.params else {}
+        ops.append(dict(op=n, p=p_))
+    case["ops"] = ops
+    return case
+
+
+_EXPANDED = {}
+
+
+def _big_entries(rng, shape, vkind, nnz, proxy, dups=False, like=None):
+    """canonical entry list (distinct subscripts in row-lexicographic order; with dups: some repeated, adjacent) holding
+    the proxy entries and nnz generated ones; like: another entry list, half of whose subscripts are reused with equal /
+    negated / unrelated values (the overlap of two operands)"""
+    ncell = ref.prod(shape)
+    have = {}
+    for s_, v in zip(proxy["subs"], proxy["vals"]):
+        have[int(np.ravel_multi_index(tuple(s_), tuple(shape)))] = float(v)
+
+    def val():
+        if vkind == "int":
+            return float(rng.choice([-6, -5, -4, -3, -2, -1, 1, 2, 3, 4, 5, 6]))
+        return float(10.0 ** rng.uniform(-3, 3) * rng.choice([-1.0, 1.0]))
+
+    if like is not None:
+        keys = [int(np.ravel_multi_index(tuple(s_), tuple(shape))) for s_ in like["subs"]]
+        for i in rng.choice(len(keys), size=min(len(keys), nnz // 2), replace=False):
+            rel = rng.randint(3)
+            have.setdefault(keys[i], like["vals"][i] if rel == 0 else (-like["vals"][i] if rel == 1 else val()))
+    want = min(ncell, nnz + len(have))
+    cand = rng.choice(ncell, size=min(ncell, nnz), replace=False)
+    if vkind == "int":
+        cv = rng.choice([-6.0, -5.0, -4.0, -3.0, -2.0, -1.0, 1.0, 2.0, 3.0, 4.0, 5.0, 6.0], size=len(cand))
+    else:
+        cv = 10.0 ** rng.uniform(-3, 3, size=len(cand)) * rng.choice([-1.0, 1.0], size=len(cand))
+    for k, v in zip(cand.tolist(), cv.tolist()):
+        if len(have) >= want:
+            break
+        have.setdefault(k, v)
+    keys = sorted(have)
+    subs = np.array(np.unravel_index(np.array(keys, dtype=np.int64), tuple(shape))).T.tolist()
+    vals = [have[k] for k in keys]
+    if dups:
+        s2, v2 = [], []
+        for s_, v in zip(subs, vals):
+            s2.append(s_), v2.append(v)
+            if rng.randint(8) == 0:
+                s2.append(list(s_)), v2.append(-v if rng.randint(2) else val())
+        subs, vals = s2, v2
+    return dict(subs=subs, vals=vals)
+
+
+def _expand_large(case):
+    """the full operands and stored orders of a compact large case (cached); every other case is returned as it is"""
+    if "big" not in case:
+        return case
+    big = case["big"]
+    key = canon_key(case)
+    hit = _EXPANDED.get(key)
+    if hit is not None:
+        return hit
+    shape = case["shape"]
+    rng = np.random.RandomState(int(big["seed"]) ^ 0x5EED)
+    out = {k: v for k, v in case.items() if k not in ("big", "ops")}
+    out["was_big"] = True
+    out["a"] = dict(case["a"], **_big_entries(rng, shape, case["vkind"], big["nnz"], case["a"], dups=big.get("dups", False)))
+    orders = {}
+    if "b" in case:
+        nb = int(rng.randint(int(0.7 * big["nnz"]), big["nnz"] + 1))
+        out["b"] = dict(case["b"], **_big_entries(rng, shape, case["vkind"], nb, case["b"], like=out["a"]))
+        orders["joint"] = [[1, 2], [2, 1]]
+    for k in ("a", "b"):
+        if k in out:
+            n = len(out[k]["subs"])
+            orders[k] = [list(range(n - 1, -1, -1)), rng.permutation(n).tolist(), rng.permutation(n).tolist()]
+    out["orders"] = orders
+    if len(_EXPANDED) > 4:
+        _EXPANDED.clear()
+    _EXPANDED[key] = out
+    return out
+
+
+def canon_key(case):
+    from ..core import canon
+
+    return canon({k: v for k, v in case.items() if k not in ("orders", "ops", "op", "p")})
+
+
+def _large_sub(case, k):
+    """the k-th operation of a compact large case as an ordinary (expanded) case"""
+    full = _expand_large(case)
+    sub = dict(full, op=case["ops"][k]["op"], p=case["ops"][k]["p"])
+    O = OPS[sub["op"]]
+    if len(O.keys) == 2:  # two large operands: identity and one other order each, all four combinations
+        sub["orders"] = dict(full["orders"], a=full["orders"]["a"][1:2], b=full["orders"]["b"][:1])
+    return sub
+
+
+def _run_large(ctx, case):
+    if case["big"].get("simplest"):
+        ctx.skip("simplest-example-is-the-same-in-every-shard")
+    full = _expand_large(case)
+    n = len(full["a"]["subs"])
+    ctx.label("big-" + case["big"]["kind"], "big-shape-" + "x".join(str(v) for v in case["shape"]),
+              "stored-" + ("<=1e4" if n <= 10000 else ("<=16384" if n <= 16384 else ">16384")),
+              "repeated-subscripts" if case["big"].get("dups") else "distinct-subscripts")
+    nt = False
+    for k in range(len(case["ops"])):
+        _run(ctx, _large_sub(case, k))
+        nt = nt or bool(ctx.nt)
+    ctx.nt = nt
+
+
+cell("C06/large-linear", strategy=lambda tier: large_case(tier, "linear"), quick=4, thorough=20, shards=(1, 4))(_run_large)
+cell("C06/large-pairs", strategy=lambda tier: large_case(tier, "pairs"), quick=3, thorough=16, shards=(1, 4))(_run_large)
+
+
+# --------------------------------------------------------------------------
+# round 3: shapes that cannot be expanded - modes longer than 2**40 / 2**53 / 2**60, more than 2**63 cells, stored
+# subscripts at the ends of the modes and just above 2**53.  Integer values (exact comparison); sparse results are
+# compared as sets of (subscript, value) entries.  Only operations whose work and result are proportional to the
+# number of stored entries (an operation that would mark every empty position cannot be run at this size).
+# --------------------------------------------------------------------------
+
+HUGE_MODES = [2**40 + 7, 2**53 + 5, 2**53 + 5, 2**60 + 1, 2**62]
+HUGE_OPS_1 = ["copy", "pos", "neg", "ones", "nnz", "norm", "permute", "elemfun", "to_sptenmat", "to_sptenmat.to_sptensor",
+              "to_sptenmat.nnz", "to_sptenmat.copy", "to_sptenmat.isequal", "to_sptenmat.norm", "from_aggregator",
+              "deepcopy", "mul-scalar", "isequal-self"]
+HUGE_OPS_2 = ["add-sptensor", "sub-sptensor", "mul-sptensor", "logical_and-sptensor", "logical_or-sptensor",
+              "logical_xor-sptensor", "ne-sptensor", "lt-sptensor", "gt-sptensor", "innerprod-sptensor",
+              "isequal-sptensor"]
+
+
+@st.composite
+def _huge_sub(draw, shape):
+    row = []
+    for n in shape:
+        how = draw(st.sampled_from(["zero", "last", "last", "near-last", "above-2^53", "above-2^53", "any"]))
+        v = {"zero": 0, "last": n - 1, "near-last": max(0, n - 1 - draw(st.integers(1, 3))),
+             "above-2^53": 2**53 + draw(st.integers(0, 3))}.get(how)
+        if v is None or v >= n:
+            v = draw(st.integers(0, n - 1))
+        row.append(int(v))
+    return row
+
+
+@st.composite
+def huge_case(draw, tier):
+    name = draw(st.sampled_from(HUGE_OPS_1 + HUGE_OPS_2))
+    O = OPS[name]
+    N = draw(st.integers(1, 3))
+    for _ in range(20):
+        shape = [draw(st.sampled_from(HUGE_MODES + [1, 2, 3])) for _ in range(N)]
+        if max(shape) < 2**40:
+            shape[draw(st.integers(0, N - 1))] = draw(st.sampled_from(HUGE_MODES))
+        # (a mode split is drawn for the sptenmat operations: keep every side below 2**63 rows whatever the split)
+        if not name.startswith("to_sptenmat") or ref.prod(shape) < 2**63:
+            break
+    else:
+        shape = [2**53 + 5] + [2] * (N - 1)
+    vals = gen.NZ_INT_VALUES
+    ka = sorted({tuple(draw(_huge_sub(shape))) for _ in range(draw(st.sampled_from(NNZ_CHOICES)))})
+    a = {k: draw(vals) for k in ka}
+    case = dict(op=name, shape=shape, vkind="int", vscale=1.0, huge=True)
+    if O.build is not None:  # from_aggregator: repeated subscripts
+        subs, vs_ = [], []
+        for k in ka:
+            for j in range(draw(st.sampled_from([1, 1, 1, 2, 3]))):
+                subs.append(list(k)), vs_.append(a[k] if j == 0 else (-a[k] if draw(st.booleans()) else draw(vals)))
+        case["a"] = dict(subs=subs, vals=vs_)
+    else:
+        case["a"] = dict(subs=[list(k) for k in ka], vals=[a[k] for k in ka])
+    if O.keys == ("a", "b"):
+        b = {}
+        for k in ka:
+            rel = draw(st.sampled_from(["same", "neg", "other", "absent", "absent"]))
+            if rel != "absent":
+                b[k] = a[k] if rel == "same" else (-a[k] if rel == "neg" else draw(vals))
+        for _ in range(draw(st.integers(0, 4))):
+            b.setdefault(tuple(draw(_huge_sub(shape))), draw(vals))
+        kb = sorted(b)
+        case["b"] = dict(subs=[list(k) for k in kb], vals=[b[k] for k in kb])
+    case["p"] = draw(O.params(tier, shape, "int", case)) if O.params else {}
+    orders = {k: draw(orders_for(len(case[k]["subs"]))) for k in O.keys}
+    if len(O.keys) == 2:
+        orders["joint"] = [[draw(st.integers(0, 10**6)), draw(st.integers(0, 10**6))] for _ in range(6)]
+    case["orders"] = orders
+    return case
+
+
+def _run_huge(ctx, case):
+    sh = case["shape"]
+    ctx.label("cells>2^63" if ref.prod(sh) >= 2**63 else "cells<2^63", "mode>2^53" if max(sh) > 2**53 else "mode<=2^53",
+              "subscript>2^53" if any(v > 2**53 for k in ("a", "b") if k in case for r in case[k]["subs"] for v in r)
+              else "subscripts<=2^53")
+    _run(ctx, case)
+
+
+cell("C06/huge", strategy=huge_case, quick=120, thorough=3000, shards=(1, 4))(_run_huge)
 
 
 BUDGET = {
@@ -1432,7 +1923,11 @@ def pairs_enumerated(ctx, case):
 
 
 def _full(case):
-    return _enum_case(case) if "ma" in case else case
+    if "ma" in case:
+        return _enum_case(case)
+    if "big" in case:  # compact large case: operands expanded (parameters are not used by the open findings)
+        return dict(_expand_large(case), p={})
+    return case
 
 
 def _nnz(case, k="a"):
@@ -1483,7 +1978,33 @@ def _scalar(case):
     return float(_full(case)["p"]["s"])
 
 
+def _common_product_zero(case):
+    """some subscript stored by both operands whose product, taken in the operands' value dtypes, is exactly zero"""
+    c = _full(case)
+    a, b = _maps(case)
+    da, db = c["a"].get("dtype", "float64"), c["b"].get("dtype", "float64")
+    with np.errstate(all="ignore"):
+        return any((np.array([a[k]]).astype(da) * np.array([b[k]]).astype(db))[0] == 0 for k in set(a) & set(b))
+
+
+def _quotient_zero_at_a(case):
+    """a stored value divided by the (nonzero, finite) dense value at its subscript is exactly zero"""
+    with np.errstate(all="ignore"):
+        return any(t != 0 and np.isfinite(t) and np.float64(v) / np.float64(t) == 0 for t, v in _T_at_a(case))
+
+
+def _common_quotient_zero(case):
+    a, b = _maps(case)
+    with np.errstate(all="ignore"):
+        return any(np.float64(a[k]) / np.float64(b[k]) == 0 for k in set(a) & set(b))
+
+
 PREDICATES = {
+    # S/T and S/S2 do not drop a quotient that underflows to exactly zero
+    "quotient_zero_at_a": _quotient_zero_at_a,
+    "common_quotient_zero": _common_quotient_zero,
+    # S*S2 does not drop a common entry whose product underflows / wraps around to exactly zero
+    "common_product_zero": _common_product_zero,
     # `*`, `/`, `==` of two sparse tensors pair the common entries by position: needs two common subscripts
     "common_ge_2": lambda c: _common(c) >= 2,
     # S/S looks up the one-sided entries in the wrong array
